@@ -17,7 +17,7 @@ from vlib.util import V, tmpdir
 
 PROPERTY = "C04"
 LEVEL = "exploration"
-DEADLINE = 600
+DEADLINE = 1800
 CHUNK = 1
 RULE = ("cases = MapSpec pipelines from vlib.mapgen (VERIF_SEED), scalar roots sometimes supplied as function defaults and sometimes "
         "as instances of a class defined in the running script's __main__; each "
@@ -176,7 +176,7 @@ def _run_child(case, cfg, i, folder, out, use_pool):
                                 staged = True
                             except Exception:  # noqa: BLE001  (a refused first stage is not this check's subject)
                                 staged = False
-                    if i % 8 == 2 and not _scoped(i):
+                    if i % 2 == 0 and not _scoped(i):
                         # ... or in PIECES: first the tail of an independent axis (fixed_indices), then everything (cleanup=False) -
                         # elements reach the storage in another order than their index order
                         cand_ = [a for a in mapgen.fixable_axes(case)[0] if case["sizes"][a] >= 2]
